@@ -149,7 +149,7 @@ func genCharCfgOnce(r *Rng, o charOpt) CharCfg {
 // word lists
 // ---------------------------------------------------------------------------
 
-var stemPool = []string{"ka", "lo", "mi", "zu", "polish", "apple", "reno", "éa", "naïve", "ßa", "λx", "две", "ñu", "two words", "re-do", "o'k", "#tag", "X-ray", "O'neil", "-x", "4 x", "_y", "9 lives", "iPhone", "NASA", "eBay", "50%", "%d", "ka\r", " lo", "zu ", "ǉubav", "ǆem", "ǳa", "ნახვა"}
+var stemPool = []string{"ka", "lo", "mi", "zu", "polish", "apple", "reno", "éa", "naïve", "ßa", "λx", "две", "ñu", "two words", "re-do", "o'k", "#tag", "X-ray", "O'neil", "-x", "4 x", "_y", "9 lives", "iPhone", "NASA", "eBay", "50%", "%d", "ka\r", " lo", "zu ", "ǉubav", "ǆem", "ǳa", "ნახვა", "ÿoga", "µm", "ἀλφα"}
 var caselessPool = []string{"4", "正確", "42", "💩", "-", "語"}
 var taintStems = []string{"éa", "ñu", "λx", "две", "øre", "שלום", "語", "正確", "ÿß", "жук", "ñandú", "éßλ"}
 
